@@ -21,6 +21,7 @@ import (
 	"sort"
 	"strconv"
 	"strings"
+	"time"
 
 	"github.com/rogpeppe/go-internal/diff"
 
@@ -333,7 +334,13 @@ func texts(sigma []string, n int) [][]byte {
 var syntaxLines = []string{"+x", "-x", " x", "@@ -1 +1 @@", "@@ -1,1 +1,1 @@", "\\ No newline at end of file",
 	"--- a", "+++ b", "diff a b", "", " ", "\\", "+", "-", "@@", "dup", "dup", "dup2", "}", "\r",
 	// printf-verb-ish and escape-ish tokens (a text line must never be read as a format)
-	"%", "%d", "100%", "%s %v %%", "%!", "%%", "%!d(MISSING)", "%[1]d", "%-5d|", "%\n", "\\n", "\\", "\t", "a\tb", "a\x00b", "\x00", "%c%c"}
+	"%", "%d", "100%", "%s %v %%", "%!", "%%", "%!d(MISSING)", "%[1]d", "%-5d|", "%\n", "\\n", "\\", "\t", "a\tb", "a\x00b", "\x00", "%c%c",
+	// editor artefacts: byte-order mark, CRLF endings, invalid UTF-8, form feed
+	"\xef\xbb\xbf", "\xef\xbb\xbfline1", "crlf\r", "dup\r", "\xff\xfe", "\xc3", "\f"}
+
+// file names are data, never formats or syntax: blanks, diff syntax, printf verbs, a newline
+var fileNames = []string{"a b", "", "x/y.txt", "--- q", "é", "b", "+++ z", "new file", "%d", "100%", "%s%s.txt", "%!s(MISSING)",
+	"%[2]s", "%v/%%", "@@ -1,1 +1,1 @@", "two\nlines", "\xef\xbb\xbfbom", "tab\there", "\\ No newline at end of file"}
 
 // structured: common runs of 0..9 lines between edits, duplicates, diff-looking lines
 func genStructured(r *common.RNG) tcase {
@@ -394,7 +401,7 @@ func genStructured(r *common.RNG) tcase {
 	}
 	c := tcase{oldName: "old", newName: "new", old: joinLines(o, !r.Chance(1, 3)), new: joinLines(n, !r.Chance(1, 3))}
 	if r.Chance(1, 8) {
-		c.oldName, c.newName = common.Pick(r, []string{"a b", "", "x/y.txt", "--- q", "é"}), common.Pick(r, []string{"b", "", "+++ z", "new file"})
+		c.oldName, c.newName = common.Pick(r, fileNames), common.Pick(r, fileNames)
 	}
 	return c
 }
@@ -503,6 +510,47 @@ func genViews(r *common.RNG) tcase {
 	return c
 }
 
+// genBig: few lines but very long ones, or very many lines.
+func genBig(r *common.RNG, i int) tcase {
+	longLine := func(n int) string {
+		b := make([]byte, n)
+		for j := range b {
+			b[j] = "abcdefgh %\t"[r.Intn(11)]
+		}
+		return string(b)
+	}
+	var o, n []string
+	switch i % 3 {
+	case 0, 1: // long lines: one changed in the middle, one common, one only on one side
+		size := 65536 + 1 + r.Intn(5000)
+		if i%3 == 1 {
+			size = 1<<20 + 1 + r.Intn(1000)
+		}
+		l1, l2 := longLine(size), longLine(size)
+		ch := []byte(l1)
+		ch[size/2] = 'Z'
+		o = []string{"head", l1, "mid", l2, "tail"}
+		n = []string{"head", string(ch), "mid", l2, "tail", longLine(70000)}
+	case 2: // many lines
+		k := 4200 + r.Intn(1500)
+		for j := 0; j < k; j++ {
+			l := fmt.Sprintf("row %d", j)
+			if r.Chance(1, 10) {
+				l = "dup"
+			}
+			o = append(o, l)
+			switch {
+			case r.Chance(1, 300):
+			case r.Chance(1, 300):
+				n = append(n, l, fmt.Sprintf("new %d", j))
+			default:
+				n = append(n, l)
+			}
+		}
+	}
+	return tcase{oldName: "big.old", newName: "big.new", old: joinLines(o, !r.Chance(1, 3)), new: joinLines(n, !r.Chance(1, 3))}
+}
+
 // raw bytes (not line structured): NUL, CR, invalid UTF-8, runs of newlines
 func genBytes(r *common.RNG) tcase {
 	mk := func() []byte {
@@ -533,6 +581,17 @@ func genBytes(r *common.RNG) tcase {
 }
 
 // ---------------------------------------------------------------- the run
+
+var modelMax = 64 << 10 // bytes of old+new up to which a case is also given to the extracted model (thorough: 400 KiB)
+
+var tLast = time.Now()
+
+func lap(what string) {
+	if os.Getenv("VERIF_TIMING") != "" {
+		fmt.Fprintf(os.Stderr, "%-20s %6.2fs\n", what, time.Since(tLast).Seconds())
+	}
+	tLast = time.Now()
+}
 
 type runner struct {
 	f     *common.Flags
@@ -680,6 +739,11 @@ func (rn *runner) one(c tcase, tag string) {
 	if rn.seen%7919 == 1 {
 		res.Sample(map[string]any{"old": fmt.Sprintf("%q", trunc(c.old)), "new": fmt.Sprintf("%q", trunc(c.new)), "impl": fmt.Sprintf("%q", trunc(out)), "source": tag})
 	}
+	if len(c.old)+len(c.new) > modelMax {
+		// the extracted model recurses over byte lists: texts this large are for the direct oracles only
+		res.Count("model-skipped:too-large")
+		return
+	}
 	rn.batch = append(rn.batch, c)
 	rn.impl = append(rn.impl, showImpl(out, panicked))
 	rn.tags = append(rn.tags, tag)
@@ -751,8 +815,17 @@ func main() {
 	}
 	defer m.Close()
 	rn := &runner{f: f, res: res, m: m, nshr: map[string]int{}}
+	if f.Tier == "thorough" {
+		modelMax = 400 << 10
+	}
 	res.Rule = "a case counts as non-trivial when the texts differ (Diff goes through lines, tgs and the hunk loop); " +
-		"compared: all bytes returned by diff.Diff vs render of the model (for private copies and for every applicable layout of the two texts in one shared buffer), and the diff logged by failing testscript cmp/cmpenv lines vs render on (a, expanded b); oracles: independent unified-diff parser + forward and reverse patch application, header, order, counts, start lines, empty-iff-identical, no panic; memory: inputs-unchanged (the caller's whole buffer, also behind the texts), result-independent-of-input-memory, result-stable-across-calls (window of earlier results re-verified after every later call, after calls from a second goroutine, and in concurrent sections)"
+		"compared: all bytes returned by diff.Diff vs render of the model (for private copies and for every applicable layout of the two texts in one shared buffer), and the diff logged by failing testscript cmp/cmpenv lines vs render on (a, expanded b); " +
+		"oracles: independent unified-diff parser + forward and reverse patch application, header, order, counts, start lines, empty-iff-identical, no panic. " +
+		"Dimensions (CONVENTIONS addendum 4): [1 state between calls] result-stable-across-calls: a window of the last results kept alive as returned and re-verified after every later call, after calls from a second goroutine, and in sections where 4 goroutines call Diff at once; 4 testscript runs at once in consumer mode. " +
+		"[2 caller's memory] every pair also as two views of ONE buffer: apart with/without spare capacity over live guard bytes, adjacent in both orders, and when the values allow it same start with different lengths, overlapping, one inside the other (a generator cuts such pairs out of one text); inputs-unchanged over the whole buffer; result-independent-of-input-memory (buffer overwritten after the call). " +
+		"[4 sizes] lines > 64 KiB and > 1 MiB, texts of > 4096 lines (direct oracles; the model only up to modelMax bytes). " +
+		"[6 data that looks like syntax] printf verbs, diff syntax, the no-newline message, BOM, CR/CRLF, NUL, invalid UTF-8 in lines; every pair of file names from a list with blanks, verbs, diff syntax, a newline. " +
+		"[3 resources, 5 faults, 7 host] do not apply: Diff is a pure function of its arguments (no files, no callbacks, no environment). [8] a source that cannot be tied (REGEN/shape break) still gets every oracle above"
 
 	if f.Replay != "" {
 		rp, err := common.LoadReplay(f.Replay)
@@ -830,8 +903,18 @@ func main() {
 			rn.one(tcase{oldName: "old", newName: "new", old: o, new: nw}, "exhaustive-escapes")
 		}
 	}
+	// every pair of file names, on a few pairs of texts
+	for _, on := range fileNames {
+		for _, nn := range fileNames {
+			for _, tx := range [][2]string{{"a\n", "b\n"}, {"%d\n", "%d"}, {"", "x"}} {
+				rn.one(tcase{oldName: on, newName: nn, old: []byte(tx[0]), new: []byte(tx[1])}, "names")
+			}
+		}
+	}
 	res.Exhaustive = true
 
+	rn.flush()
+	lap("exhaustive")
 	// 3. structured
 	rng := common.NewRNG(f.Seed)
 	rs := rng.Fork()
@@ -846,6 +929,8 @@ func main() {
 			held = append(held, c)
 		}
 	}
+	rn.flush()
+	lap("structured")
 	// 3b. pairs cut out of ONE text: same start with different lengths (a truncated view, a text
 	// grown in place), overlapping, one inside the other, adjacent — so that the aliasing layouts
 	// of memory.go that need related values are exercised on every kind of text
@@ -861,6 +946,8 @@ func main() {
 			held = append(held, c)
 		}
 	}
+	rn.flush()
+	lap("views")
 	// 4. raw bytes
 	rb := rng.Fork()
 	nb := 8000
@@ -870,6 +957,8 @@ func main() {
 	for i := 0; i < nb; i++ {
 		rn.one(genBytes(rb), "bytes")
 	}
+	rn.flush()
+	lap("bytes")
 	// 5. random long texts
 	rl := rng.Fork()
 	nr, maxLines := 300, 600
@@ -884,10 +973,26 @@ func main() {
 		}
 	}
 	rn.flush()
+	lap("random-long")
+	// 5a. sizes past the usual internal limits: lines longer than 64 KiB (bufio.Scanner's token
+	// limit) and 1 MiB, texts of several thousand lines, with and without final newline
+	rg := rng.Fork()
+	nbig := 6
+	if f.Tier == "thorough" {
+		nbig = 40
+	}
+	for i := 0; i < nbig; i++ {
+		rn.one(genBig(rg, i), "big")
+	}
+	rn.flush()
+	rn.flush()
+	lap("big")
 	// 5b. several goroutines calling Diff at the same time
 	for lo := 0; lo+64 <= len(held) && lo < 64*12; lo += 64 {
 		rn.concurrent(held[lo : lo+64])
 	}
+	rn.flush()
+	lap("concurrent")
 	// 6. the consumer: diffs logged by failing cmp / cmpenv lines of testscript
 	rn.consumerBatch(consumerFixed(), "consumer-fixed")
 	rc := rng.Fork()
@@ -906,7 +1011,10 @@ func main() {
 		}
 		rn.consumerBatches(bs, "consumer")
 	}
+	rn.flush()
+	lap("consumer")
 	// 7. the executable form of the theorems, evaluated on the model
 	rn.modelHolds(held)
+	lap("model-holds")
 	res.Write(f.Out)
 }
